@@ -25,21 +25,65 @@ WRITE_TYPE = ["openat", "open", "creat", "write", "pwrite64", "writev", "fsync",
 LINE = re.compile(r"^(?:\d+\s+)?([a-z_0-9]+)\((.*)\)\s*=\s*(-?\d+|\?)(?:\s.*)?$")
 
 
-def setup(d, content):
+TMPSFX = ".snoopyctl-tmp"
+
+
+def rm_any(f):
+    if os.path.islink(f) or os.path.isfile(f):
+        os.unlink(f)
+    elif os.path.isdir(f):
+        shutil.rmtree(f)
+
+
+def setup(d, content, extra=None):
+    """initial state: the preload file (absent / regular / a symlink to real/ld.so.preload) and what an earlier, killed run may have left
+    at the temp path: nothing, a regular file (extra["tmp"] = bytes), a symlink to another file ("symlink"), a directory ("dir")"""
+    extra = extra or {}
     os.makedirs(os.path.join(d, "lib"), exist_ok=True)
     open(os.path.join(d, pl.P_MAIN.decode()), "ab").close()
     p = os.path.join(d, PRE)
-    for f in (p, p + ".snoopyctl-tmp"):
-        if os.path.exists(f):
-            os.unlink(f)
     for f in os.listdir(d):
-        if f.startswith(PRE) and f != PRE:
-            os.unlink(os.path.join(d, f))
-    if content is not None:
+        if f.startswith(PRE) or f in ("real", "tmp-target"):
+            rm_any(os.path.join(d, f))
+    if extra.get("link"):
+        os.makedirs(os.path.join(d, "real"))
+        os.symlink(os.path.join("real", PRE), p)
+        if content is not None:
+            open(os.path.join(d, "real", PRE), "wb").write(content)
+    elif content is not None:
         open(p, "wb").write(content)
+    t = extra.get("tmp")
+    if t == "symlink":
+        open(os.path.join(d, "tmp-target"), "wb").write(b"/lib/target-of-stale-link.so\n")
+        os.symlink("tmp-target", p + TMPSFX)
+    elif t == "dir":
+        os.makedirs(p + TMPSFX)
+    elif isinstance(t, bytes):
+        open(p + TMPSFX, "wb").write(t)
+
+
+def extra_str(extra):
+    if not extra:
+        return ""
+    t = extra.get("tmp")
+    return " [%s%s]" % ("preload file is a symlink; " if extra.get("link") else "",
+                        "no stale temp file" if t is None else ("stale temp file: %s" % (t if isinstance(t, str) else "%d bytes %r" % (len(t), t[:40]))))
+
+
+def extra_enc(extra):
+    extra = extra or {}
+    t = extra.get("tmp")
+    return {"link": bool(extra.get("link")), "tmp": None if t is None else (t if isinstance(t, str) else "hex:" + hexs(t))}
+
+
+def extra_dec(e):
+    e = e or {}
+    t = e.get("tmp")
+    return {"link": bool(e.get("link")), "tmp": None if t is None else (unhex(t[4:]) if t.startswith("hex:") else t)}
 
 
 def state(d):
+    """what the loader would read at the preload path (through a symlink if it is one); None = no file"""
     p = os.path.join(d, PRE)
     return open(p, "rb").read() if os.path.exists(p) else None
 
@@ -147,15 +191,32 @@ def contents(run):
     return cs
 
 
-def one_case(run, exe, trace_model, idx, action, content, new):
+def with_states(run, cs, news):
+    """(action, content, new, extra): every case from a clean directory; the cases that rewrite the file also with what an earlier killed
+    run may have left at the temp path (shorter / as long as / longer than the new content, a symlink, a directory) and with the preload
+    file being a symlink"""
+    out = [(a, c, n, None) for (a, c), n in zip(cs, news)]
+    writers = [(a, c, n) for (a, c), n in zip(cs, news) if n != c and len(n or b"") < 200]
+    pick = writers if run.tier == "thorough" else [w for w in writers if w[1] in (b"/lib/foreign.so\n", b"a\n" + pl.P_MAIN + b"\nb\n")]
+    for (a, c, n) in pick:
+        n_ = n or b""
+        stale = [n_[:len(n_) // 2], b"J" * len(n_), n_ + b"/opt/old/lib/libsnoopy.so\n/lib/stale-tail.so\n", "symlink", "dir"]
+        for t in stale:
+            out.append((a, c, n, {"tmp": t}))
+        out.append((a, c, n, {"link": True}))
+        out.append((a, c, n, {"link": True, "tmp": n_ + b"#tail\n"}))
+    return out
+
+
+def one_case(run, exe, trace_model, idx, action, content, new, extra=None):
     """returns dict(trace_ok, observed, violations[list of dict], runs)"""
     d = os.path.join(run.scratch, "c20-%d" % idx)
     os.makedirs(d, exist_ok=True)
     res = {"violations": [], "runs": 0, "trace_mismatch": None}
-    allowed = [content, new]
+    allowed = [content or b"", new or b""]          # an absent and an empty preload file are the same content (no entries)
     # --- the reference run
-    setup(d, content)
-    log = os.path.join(d, "trace.log")
+    setup(d, content, extra)
+    log = os.path.join(run.scratch, "c20-trace-%d.log" % idx)
     rc = strace_run(exe, d, action, log=log)
     res["runs"] += 1
     calls = parse_trace(log)
@@ -163,12 +224,16 @@ def one_case(run, exe, trace_model, idx, action, content, new):
     obs = canonical(calls)
     changed = new != content
     exp = expected_words(trace_model, len(new or b"")) if changed else []
-    if final != new:
-        res["violations"].append({"why": "final content differs from the model's prediction", "fault": None, "after": hexs(final)})
-    if obs != exp:
+    isdir = bool(extra and extra.get("tmp") == "dir")       # the temp path is a directory: snoopyctl must fail and leave the file alone
+    if (final or b"") != ((content if isdir else new) or b""):
+        res["violations"].append({"why": "final content of the undisturbed run differs from the model's prediction", "fault": None, "after": hexs(final)})
+    if obs != exp and not (extra and extra.get("tmp") in ("dir",)):
         res["trace_mismatch"] = {"observed": obs, "expected": exp}
     res["observed"] = obs
     res["nsys"] = len(calls)
+    if res["violations"]:
+        shutil.rmtree(d, ignore_errors=True)
+        return res                       # the undisturbed run is already wrong: that is the replay
     # --- kill on entry of every system call instance
     counts = {}
     plan = []
@@ -182,12 +247,12 @@ def one_case(run, exe, trace_model, idx, action, content, new):
                 for e in ERRNOS:
                     plan.append(("error", nm, k, e))
     for (kind, nm, k, e) in plan:
-        setup(d, content)
+        setup(d, content, extra)
         inj = "%s:signal=SIGKILL:when=%d" % (nm, k) if kind == "kill" else "%s:error=%s:when=%d" % (nm, e, k)
         rc = strace_run(exe, d, action, inject=inj)
         res["runs"] += 1
         after = state(d)
-        if after not in allowed:
+        if (after or b"") not in allowed:
             res["violations"].append({"why": "preload file is neither the old nor the new content", "fault": {"kind": kind, "syscall": nm, "when": k, "errno": e},
                                       "after": hexs(after), "rc": rc})
             if len(res["violations"]) >= 3:
@@ -205,22 +270,26 @@ def corpus_plans():
             if fn.endswith(".txt"):
                 for line in open(os.path.join(d, fn)):
                     f = line.rstrip("\n").split("\t")
-                    if len(f) == 6 and not line.startswith("#"):
-                        out.append((f[0], unhex(f[1]), f[2], f[3], int(f[4]), None if f[5] == "-" else f[5]))
+                    if len(f) in (6, 8) and not line.startswith("#"):
+                        extra = None
+                        if len(f) == 8:      # + temp-file state (- | hex:<hex> | symlink | dir), preload file is a symlink (0|1)
+                            extra = extra_dec({"tmp": None if f[6] == "-" else f[6], "link": f[7] == "1"})
+                        out.append((f[0], unhex(f[1]), f[2], f[3], int(f[4]), None if f[5] == "-" else f[5], extra))
     return out
 
 
 def run_plan(run, exe, idx, plan, new):
-    (action, content, kind, nm, k, e) = plan
+    (action, content, kind, nm, k, e, extra) = plan
     d = os.path.join(run.scratch, "c20-corpus-%d" % idx)
     os.makedirs(d, exist_ok=True)
-    setup(d, content)
-    inj = "%s:signal=SIGKILL:when=%d" % (nm, k) if kind == "kill" else "%s:error=%s:when=%d" % (nm, e, k)
+    setup(d, content, extra)
+    inj = None if kind == "none" else ("%s:signal=SIGKILL:when=%d" % (nm, k) if kind == "kill" else "%s:error=%s:when=%d" % (nm, e, k))
     rc = strace_run(exe, d, action, inject=inj)
     after = state(d)
     shutil.rmtree(d, ignore_errors=True)
-    if after not in (content, new):
-        return {"why": "preload file is neither the old nor the new content", "fault": {"kind": kind, "syscall": nm, "when": k, "errno": e}, "after": hexs(after), "rc": rc}
+    if (after or b"") not in (content or b"", new or b""):
+        return {"why": "preload file is neither the old nor the new content", "fault": None if kind == "none" else {"kind": kind, "syscall": nm, "when": k, "errno": e},
+                "after": hexs(after), "rc": rc}
     return None
 
 
@@ -252,24 +321,26 @@ def check(run):
         if v:
             corpus_bad.append((pl_, pn, v))
 
+    full = with_states(run, cs, news)
+
     def job(i):
-        return one_case(run, exe, trace_model, i, cs[i][0], cs[i][1], news[i])
+        return one_case(run, exe, trace_model, i, full[i][0], full[i][1], full[i][2], full[i][3])
     with ThreadPoolExecutor(pl.WORKERS) as ex:
-        results = list(ex.map(job, range(len(cs))))
+        results = list(ex.map(job, range(len(full))))
     nruns = sum(r["runs"] for r in results) + len(plans)
     nv = 0
     seen = set()
     for (pl_, pn, v) in corpus_bad:
         f = v["fault"]
-        sig = "atomic:%s" % f["kind"]
+        sig = "atomic:%s" % (f["kind"] if f else "final")
         if sig in seen:
             continue
         seen.add(sig)
-        what = "%s on entry of %s #%d" % ("killed" if f["kind"] == "kill" else f["errno"], f["syscall"], f["when"])
-        run.violation(sig, "spec_violation", "%s: snoopyctl %s, %s (corpus case); old=%r new=%r found=%r" % (v["why"], pl_[0], what, (pl_[1] or b"")[:60], (pn or b"")[:60], (unhex(v["after"]) or b"")[:60]),
-                      {"failing_input": {"action": pl_[0], "content": hexs(pl_[1]), "fault": f}, "old": hexs(pl_[1]), "new": hexs(pn), "after": v["after"]})
+        what = ("%s on entry of %s #%d" % ("killed" if f["kind"] == "kill" else f["errno"], f["syscall"], f["when"])) if f else "undisturbed run"
+        run.violation(sig, "spec_violation", "%s: snoopyctl %s%s, %s (corpus case); old=%r new=%r found=%r" % (v["why"], pl_[0], extra_str(pl_[6]), what, (pl_[1] or b"")[:60], (pn or b"")[:60], (unhex(v["after"]) or b"")[:80]),
+                      {"failing_input": {"action": pl_[0], "content": hexs(pl_[1]), "fault": f, "state": extra_enc(pl_[6])}, "old": hexs(pl_[1]), "new": hexs(pn), "after": v["after"]})
         nv += 1
-    for (a, c), new, r in zip(cs, news, results):
+    for (a, c, new, extra), r in zip(full, results):
         for v in r["violations"]:
             f = v["fault"]
             sig = "atomic:%s" % (f["kind"] if f else "final")
@@ -277,26 +348,27 @@ def check(run):
                 continue
             seen.add(sig)
             what = ("%s on entry of %s #%d" % ("killed" if f["kind"] == "kill" else f["errno"], f["syscall"], f["when"])) if f else "undisturbed run"
-            run.violation(sig, "spec_violation", "%s: snoopyctl %s, %s; old=%r new=%r found=%r" % (v["why"], a, what, (c or b"")[:60], (new or b"")[:60], (unhex(v["after"]) or b"")[:60]),
-                          {"failing_input": {"action": a, "content": hexs(c), "fault": f}, "old": hexs(c), "new": hexs(new), "after": v["after"]})
+            run.violation(sig, "spec_violation", "%s: snoopyctl %s%s, %s; old=%r new=%r found=%r" % (v["why"], a, extra_str(extra), what, (c or b"")[:60], (new or b"")[:60], (unhex(v["after"]) or b"")[:80]),
+                          {"failing_input": {"action": a, "content": hexs(c), "fault": f, "state": extra_enc(extra)}, "old": hexs(c), "new": hexs(new), "after": v["after"]})
             nv += 1
-    mism = [(cs[i], r["trace_mismatch"]) for i, r in enumerate(results) if r["trace_mismatch"]]
+    mism = [((full[i][0], full[i][1]), r["trace_mismatch"]) for i, r in enumerate(results) if r["trace_mismatch"]]
     if not ok and nv == 0:
         run.violation("proof:%s" % failed, "proof", "proof obligation no longer checks: %s\n%s" % (failed, (log or "")[-1500:]), {"theorem": failed, "coq_log": (log or "")[-3000:]})
     elif mism and nv == 0:
         (a, c), t = mism[0]
         run.violation("corr:trace", "correspondence", "system calls on the preload path differ from the compiled program's operations in %d of %d runs; first: %s observed %s expected %s"
-                      % (len(mism), len(cs), a, t["observed"], t["expected"]), {"action": a, "content": hexs(c), "trace": t})
+                      % (len(mism), len(full), a, t["observed"], t["expected"]), {"action": a, "content": hexs(c), "trace": t})
     run.coverage.update({
-        "evaluations": nruns, "distinct_nontrivial": sum(1 for (a, c), n in zip(cs, news) if n != c),
-        "rule": "for each (action, initial content): one traced run (system calls on the preload path and its temp sibling = operation sequence of the program compiled from the "
+        "evaluations": nruns, "distinct_nontrivial": sum(1 for (a, c, n, x) in full if n != c),
+        "rule": "initial states: preload file absent / regular / a symlink, temp path free or holding what an earlier killed run left (regular file shorter, as long as, longer than the new "
+                "content; a symlink; a directory); for each (action, initial state): one traced run (system calls on the preload path and its temp sibling = operation sequence of the program compiled from the "
                 "regenerated skeleton; final content = extracted model), then one run per system call instance of that trace killed (SIGKILL) on entry of the call, and one run per "
                 "open/write/fsync/close/rename/fchmod/fchown instance x {ENOSPC, EIO, EDQUOT}; after each, the file must be the old or the new content; "
                 "non-trivial = case in which the content changes",
-        "samples": [{"action": a, "content": ("~" if c is None else c[:60].decode("latin1")), "syscalls": r["nsys"], "ops": r["observed"]} for (a, c), r in list(zip(cs, results))[:5]],
-        "distribution": {"cases": len(cs), "corpus_plans": len(plans), "runs": nruns, "model_trace": trace_model, "trace_mismatches": len(mism),
+        "samples": [{"action": a, "content": ("~" if c is None else c[:60].decode("latin1")), "state": extra_enc(x), "syscalls": r["nsys"], "ops": r["observed"]} for (a, c, n, x), r in list(zip(full, results))[::max(1, len(full) // 5)][:5]],
+        "distribution": {"cases": len(full), "cases_with_stale_temp_or_symlink": sum(1 for f in full if f[3]), "corpus_plans": len(plans), "runs": nruns, "model_trace": trace_model, "trace_mismatches": len(mism),
                          "violations": sum(len(r["violations"]) for r in results)},
-        "traces_validated_against_impl": len(cs) - len(mism),
+        "traces_validated_against_impl": len(full) - len(mism),
     })
     return run.finish(
         level="proof",
@@ -319,21 +391,22 @@ def replay(run, path):
         run.cleanup()
         return 0
     a, c, f = fi["action"], unhex(fi["content"]), fi.get("fault")
+    extra = extra_dec(fi.get("state"))
     new = model_new(run, [(a, c)])[0]
     d = os.path.join(run.scratch, "c20-replay")
     os.makedirs(d, exist_ok=True)
-    setup(d, c)
+    setup(d, c, extra)
     inj = None
     if f:
         inj = "%s:signal=SIGKILL:when=%d" % (f["syscall"], f["when"]) if f["kind"] == "kill" else "%s:error=%s:when=%d" % (f["syscall"], f["errno"], f["when"])
     rc = strace_run(exe, d, a, inject=inj, log=os.path.join(d, "t.log"))
     after = state(d)
-    print("action:", a, "fault:", f)
+    print("action:", a, "fault:", f, "initial state:", extra_str(extra) or "clean directory")
     print(" old:  ", c)
     print(" new:  ", new)
     print(" found:", after, "rc", rc)
     print(" last system calls:", [x[0] for x in parse_trace(os.path.join(d, "t.log"))][-8:])
-    bad = after not in (c, new)
+    bad = (after or b"") not in (c or b"", new or b"")
     print("violation reproduced" if bad else "file holds old or new content")
     run.cleanup()
     return 1 if bad else 0
